@@ -395,7 +395,9 @@ fn same_source(a: &str, b: &str) -> bool {
 }
 
 fn execute(b: &Built, exit_mode: u8, mode: RunMode, scratch: &std::path::Path, slot: Option<std::sync::Arc<WatchSlot>>) -> Result<u64, (String, String)> {
-    let dir = scratch.join("c10");
+    // scripts run from files live in a directory with an awkward name (a blank, a backslash, a multi-byte
+    // and an upper-case letter, a '#'); the text mode writes absolute paths into directives and keeps a plain one
+    let dir = if mode == RunMode::Text { scratch.join("c10") } else { scratch.join("c10 d\\ir É#1") };
     let ctx = sdk_context();
     let (env, _o, _e, h) = quiet_env();
     if let Some(s) = slot {
@@ -799,7 +801,7 @@ pub fn crash_sig(_case: &Value, kind: &str) -> String {
     kind.to_string()
 }
 
-pub const RULE: &str = "programs: every sequence of 1..k error sites, each site = context {top level, function body, for body, while body, if branch, else branch, inside a script-implemented library command, included file, a function called from a loop, a loop inside a function, as the condition of if / elseif / while and as the operand of not, inside a function that is called as the condition of an if or as the operand of not inside a for body} x error kind {trigger_error, assert_error with a message containing a space, a real failing command, a message containing the literal text ${x}, a failing script-implemented command} x lines in front of the site {none, a blank line, blank + comment, `set_error` + an `exit_on_error` query (statements that touch the error record and the mode without being errors)}; each site assigns an output variable and is followed by get_last_error / get_last_error_line / get_last_error_source probes; x exit_on_error schedule {never, on from the start, turned on after the first site, on then off before the first site} x run mode {text (included files named by absolute path), file, file that includes the file with the sites}. Oracle (error protocol): output variable 'false'; message, 1-based line and source file of the instruction the runner was executing (the caller's line for the script-implemented command, the included file's own path and line for included code); the latest error wins; the script reaches its last line and the enclosing blocks go on as written (a for body with two elements and a while body run twice, the else branch of an if whose then-branch failed does not run); under exit_on_error the run fails with Runtime(message, line, source) of the first error after it was turned on, and the text the failure is reported with contains that message and line. Scale cases: 300/3000 (thorough 30000) errors raised in a loop and on as many different lines (the latest wins, with its line), and a fatal error that far down after exit_on_error. Message texts: 36 awkward texts (format placeholders, percent signs, brackets, quotes, escapes, blanks at the ends, words that read as false, option look-alikes) x {trigger_error, assert_error} x {top level, inside a function, behind an alias} x {recorded, fatal}: the text comes back unchanged. evaluations = programs run. Transient errors: the condition of a running while loop (a command, an alias, a function) reports an error in its 2nd / 3rd / 4th evaluation only, flat and inside another loop: the body runs, the loop goes on to its natural end. Latest wins: every ordered pair of 9 messages (the empty one, a blank, one that repeats the other ...) x 3 pairs of commands: after the second error the queries show the second message and line";
+pub const RULE: &str = "programs: every sequence of 1..k error sites, each site = context {top level, function body, for body, while body, if branch, else branch, inside a script-implemented library command, included file, a function called from a loop, a loop inside a function, as the condition of if / elseif / while and as the operand of not, inside a function that is called as the condition of an if or as the operand of not inside a for body} x error kind {trigger_error, assert_error with a message containing a space, a real failing command, a message containing the literal text ${x}, a failing script-implemented command} x lines in front of the site {none, a blank line, blank + comment, `set_error` + an `exit_on_error` query (statements that touch the error record and the mode without being errors)}; each site assigns an output variable and is followed by get_last_error / get_last_error_line / get_last_error_source probes; x exit_on_error schedule {never, on from the start, turned on after the first site, on then off before the first site} x run mode {text (included files named by absolute path), file, file that includes the file with the sites}. Oracle (error protocol): output variable 'false'; message, 1-based line and source file of the instruction the runner was executing (the caller's line for the script-implemented command, the included file's own path and line for included code); the latest error wins; the script reaches its last line and the enclosing blocks go on as written (a for body with two elements and a while body run twice, the else branch of an if whose then-branch failed does not run); under exit_on_error the run fails with Runtime(message, line, source) of the first error after it was turned on, and the text the failure is reported with contains that message and line. Scale cases: 300/3000 (thorough 30000) errors raised in a loop and on as many different lines (the latest wins, with its line), and a fatal error that far down after exit_on_error. Message texts: 36 awkward texts (format placeholders, percent signs, brackets, quotes, escapes, blanks at the ends, words that read as false, option look-alikes) x {trigger_error, assert_error} x {top level, inside a function, behind an alias} x {recorded, fatal}: the text comes back unchanged. evaluations = programs run. Transient errors: the condition of a running while loop (a command, an alias, a function) reports an error in its 2nd / 3rd / 4th evaluation only, flat and inside another loop: the body runs, the loop goes on to its natural end. Latest wins: every ordered pair of 9 messages (the empty one, a blank, one that repeats the other ...) x 3 pairs of commands: after the second error the queries show the second message and line. Scripts run from files live in a directory with a blank, a backslash, multi-byte and upper-case letters and a '#' in its name";
 pub const ASSUMPTIONS: &[&str] = &["the message of the real failing command is taken from running that command alone (differential)", "a failing command in condition position makes the wrapping library command (if / elseif / while / not) report that error on its own line; the script then goes on with the next line, which is the first line of the body (what the body's own end / else lines do afterwards is not looked at: the generated blocks have no else and a while body leaves through goto)"];
 pub const EXHAUSTIVE: bool = true;
 pub const WALL_CAP_S: (u64, u64) = (55, 1500);
